@@ -196,7 +196,7 @@ impl Scenario for Flow {
         let mut walker_ok = true;
         let mut flights: Vec<Flight> = vec![];
         let mut frame: Vec<u8> = vec![];
-        let mut frame_pkts: Vec<(usize, usize, RxObs, bool)> = vec![]; // (offset, len, isolated observation, produced_by_sender_uncorrupted)
+        let mut frame_pkts: Vec<(usize, usize, RxObs, bool, bool)> = vec![]; // .4 = label memories were re-synchronised after this packet // (offset, len, isolated observation, produced_by_sender_uncorrupted)
         let mut stream_no = 0u32;
         let mut merge = H64::new();
         let mut last_stream: Option<u32> = None;
@@ -411,9 +411,17 @@ impl Scenario for Flow {
                         }
                     }
                 }
+                // the receiver clears its label memory on every error (by design): a rejected packet ends
+                // label re-use for this frame. Model: the sender restarts with a full label.
+                if obs.class == "err" {
+                    enc.reset_last_label();
+                    led.reset();
+                    rx.reset();
+                    ex.st.inc("label_resync_after_rejection");
+                }
                 // queue for the walker
                 if walker.is_some() {
-                    frame_pkts.push((frame.len(), pkt.len(), obs.clone(), clean && fl.is_some()));
+                    frame_pkts.push((frame.len(), pkt.len(), obs.clone(), clean && fl.is_some(), obs.class == "err"));
                     frame.extend_from_slice(pkt);
                 }
                 absorb(&mut rx, r);
@@ -753,7 +761,8 @@ impl Scenario for Flow {
                     }
                     // start/complete strays move the label memories of the receiver only: the sender's
                     // substituted re-use packets would now resolve differently -> taint label expectations
-                    if matches!(kind, Kind::Complete | Kind::First) {
+                    // any stray may change (start/complete) or clear (malformed) the receiver's label memory
+                    {
                         // keep sender and receiver label memories aligned: reset both
                         enc.reset_last_label();
                         led.reset();
@@ -775,9 +784,7 @@ impl Scenario for Flow {
                     });
                     merge.u(1000 + kind as u64);
                     deliver!(&pkt, None, false);
-                    if matches!(kind, Kind::Complete | Kind::First) {
-                        rx.reset();
-                    }
+                    rx.reset();
                 }
                 "frame" => {
                     ex.st.inc("frames");
@@ -792,7 +799,7 @@ impl Scenario for Flow {
                             let mut ix = 0usize;
                             walked_max = walked_max.max(frame_pkts.len());
                             while ix < frame_pkts.len() {
-                                let (o, l, iso, clean) = frame_pkts[ix].clone();
+                                let (o, l, iso, clean, resync) = frame_pkts[ix].clone();
                                 if off != o {
                                     break;
                                 }
@@ -843,7 +850,9 @@ impl Scenario for Flow {
                                     break;
                                 }
                                 if obs.consumed != l {
-                                    if obs.class != "err" || !frame_level || clean {
+                                    // a corrupted length field changes the packet's own length: compare with the isolated run
+                                    // (SizePduBuffer is used both per packet (oversize) and per frame (truncated extension chain): ambiguous on corrupted packets)
+                                    if clean || (!frame_level && obs.class != "padding" && obs.err != "SizePduBuffer" && obs.consumed != iso.consumed) {
                                         if ex.report(Violation::new("C10", "C10.consumed_ne_own_length", site.clone(), format!("packet of {} bytes at offset {}, consumed {} (frame {} bytes)", l, off, obs.consumed, fr.len()))) {
                                             stop!();
                                         }
@@ -857,6 +866,9 @@ impl Scenario for Flow {
                                     ex.st.inc("probe.rejected_packet_walked");
                                 }
                                 absorb(w, r);
+                                if resync {
+                                    w.reset();
+                                }
                                 off += l;
                                 ix += 1;
                             }
